@@ -89,6 +89,34 @@ def deref(v):
     return v
 
 
+class _Rev:
+    """sort key wrapper for core::cmp::Reverse"""
+    def __init__(self, v):
+        self.v = v
+
+    def __lt__(self, o):
+        return o.v < self.v
+
+    def __eq__(self, o):
+        return isinstance(o, _Rev) and o.v == self.v
+
+
+def _sortable(v):
+    """A Python-comparable image of a sort key (ints, text, tuples, Reverse, Option); TypeError when there is none."""
+    v = deref(v) if not isinstance(v, (int, str, tuple)) else v
+    if v is UNKNOWN:
+        raise TypeError("unknown key")
+    if isinstance(v, tuple):
+        return tuple(_sortable(x) for x in v)
+    if isinstance(v, Struct) and v.adt.endswith("cmp::Reverse"):
+        return _Rev(_sortable(v.fields.get("0", UNKNOWN)))
+    if isinstance(v, Enum) and v.adt == OPTION:
+        return (0,) if v.variant == "None" else (1, _sortable(v.fields.get("0", UNKNOWN)))
+    if isinstance(v, (Struct, Enum, list, dict)):
+        raise TypeError("no order on %r" % (v,))
+    return v
+
+
 class Iter:
     """Iterator state over a list value (the only heap object of the evaluator)."""
     def __init__(self, items):
@@ -588,6 +616,8 @@ class PEval:
                 return v[int(f)]
             return UNKNOWN
         if k == "Const":
+            if str(e.get("def", "")).startswith("log::"):
+                return Struct("#log", {})     # the logging facade: levels are never observed by a property
             c = self.lib.consts.get(e.get("def", "")) if hasattr(self.lib, "consts") else None
             if c is not None and c.get("thir") and c["thir"].get("body"):
                 try:
@@ -786,6 +816,11 @@ class PEval:
             r = self.hook(self, path, fname, [deref(a) for a in args], node)
             if r is not NotImplemented:
                 return r
+        if path.startswith("log::") or path.startswith("<log::"):
+            # `log::trace!(..)` and friends: logging is switched off in the model (`lvl <= STATIC_MAX_LEVEL` is false)
+            return False if fname in ("le", "lt", "ge", "gt", "eq", "enabled", "log_enabled") else (Struct("#log", {}) if fname == "max_level" else UNIT)
+        if fname in ("le", "lt", "ge", "gt") and len(args) == 2 and any(isinstance(deref(a), Struct) and deref(a).adt == "#log" for a in args):
+            return False
         # Clone / PartialEq are structural whatever their (usually derived) bodies look like
         if fname in ("clone", "to_owned") and len(args) == 1 and ("Clone" in path or "ToOwned" in path or "clone::" in path):
             import copy
@@ -793,6 +828,12 @@ class PEval:
             return copy.deepcopy(v0) if isinstance(v0, (Struct, Enum, list, Iter, PyMap, PySet)) else v0
         if fname in ("eq", "ne") and len(args) == 2 and ("PartialEq" in path or "cmp::" in path):
             l_, r_ = deref(args[0]), deref(args[1])
+            if isinstance(l_, str) and isinstance(r_, str) and node is not None and len(node.get("args", [])) == 2:
+                tys = [self.lib.ty_str(self.lib.strip_refs(a["t"])) if "t" in a else "" for a in node["args"]]
+                if any(t in ("std::path::Path", "std::path::PathBuf") for t in tys):
+                    from . import pathmodel
+                    same = pathmodel.components(l_) == pathmodel.components(r_)     # Path equality is component-wise
+                    return same if fname == "eq" else not same
             same = (isinstance(l_, (Struct, Enum)) and isinstance(r_, (Struct, Enum)) and l_.adt == r_.adt) or \
                    (type(l_) is type(r_) and not isinstance(l_, (Struct, Enum)))
             if same:
@@ -851,6 +892,9 @@ class PEval:
             args = [deref(a) for a in args]
         a0 = deref(args[0]) if args else UNKNOWN
         if not (local is not None and thir.body_of(local)):
+            r = self.std_paths(path, fname, rargs, args, a0, node, depth)
+            if r is not NotImplemented:
+                return r
             r = self.std_text_and_maps(path, fname, rargs, args, a0, node, depth)
             if r is not NotImplemented:
                 return r
@@ -1013,6 +1057,14 @@ class PEval:
             return copy.deepcopy(a0)
         if fname in ("new", "default", "with_capacity") and ("::vec::Vec" in path or "VecDeque" in path) :
             return []
+        if isinstance(a0, list) and fname in ("starts_with", "ends_with") and len(args) == 2 and isinstance(args[1], list) and "slice" in path:
+            k_ = len(args[1])
+            part = a0[:k_] if fname == "starts_with" else (a0[len(a0) - k_:] if k_ <= len(a0) else None)
+            if part is None or len(part) != k_:
+                return False
+            if any(x is UNKNOWN for x in part + args[1]):
+                return UNKNOWN
+            return part == args[1]
         if isinstance(a0, list) and fname in ("push", "push_back") and len(args) == 2:
             a0.append(args[1])
             return UNIT
@@ -1074,6 +1126,21 @@ class PEval:
                 if a0.i < len(a0.items):
                     a0.i += 1
                     return some(a0.items[a0.i - 1])
+                return NONE
+            if fname in ("peek", "peek_mut") and len(args) == 1:
+                return some(a0.items[a0.i]) if a0.i < len(a0.items) else NONE
+            if fname == "next_back" and len(args) == 1:
+                if a0.i < len(a0.items):
+                    return some(a0.items.pop())
+                return NONE
+            if fname == "next_if" and len(args) == 2:
+                if a0.i < len(a0.items):
+                    r = self.truth(self.apply(args[1], [a0.items[a0.i]], depth))
+                    if r is UNKNOWN:
+                        return UNKNOWN
+                    if r:
+                        a0.i += 1
+                        return some(a0.items[a0.i - 1])
                 return NONE
             if fname == "enumerate":
                 return Iter([(i, x) for i, x in enumerate(a0.rest())])
@@ -1140,7 +1207,7 @@ class PEval:
             return self.unknown("sort_by comparator") if bad else UNIT
         if isinstance(a0, list) and fname in ("sort_by_key", "sort_unstable_by_key", "sort_by_cached_key") and len(args) == 2:
             try:
-                a0.sort(key=lambda x: self.apply(args[1], [x], depth))
+                a0.sort(key=lambda x: _sortable(self.apply(args[1], [x], depth)))
                 return UNIT
             except TypeError:
                 return self.unknown("sort key")
@@ -1387,6 +1454,10 @@ class PEval:
                 for x in a0:
                     self.apply(args[1], [x], depth)
                 return UNIT
+            if fname == "inspect" and len(args) == 2:
+                for x in a0:
+                    self.apply(args[1], [x], depth)
+                return a0
             if fname == "enumerate":
                 return [(i, x) for i, x in enumerate(a0)]
             if fname == "zip" and len(args) == 2 and isinstance(args[1], (Iter, list)):
@@ -1455,6 +1526,163 @@ class PEval:
             if fname == "collect":
                 return a0
         return self.unknown("call %s" % (path or fname))
+
+    # ---- std::path (Unix), see sa/pathmodel.py -------------------------------------------------------
+    def std_paths(self, path, fname, rargs, args, a0, node, depth):
+        from . import pathmodel as pm
+        PathV = pm.PathV
+        COMP = "std::path::Component"
+
+        def comp(c):
+            return Enum(COMP, c[0], {"0": c[1]} if c[0] == "Normal" else {})
+
+        def text_of(x):
+            """text of a path-like argument (path, string, OsStr, Component), or None"""
+            x = deref(x)
+            if isinstance(x, str):
+                return str(x)
+            if isinstance(x, Enum) and x.adt == COMP:
+                return {"RootDir": "/", "CurDir": ".", "ParentDir": ".."}.get(x.variant, x.fields.get("0") if isinstance(x.fields.get("0"), str) else None)
+            if isinstance(x, Iter) and all(isinstance(c, Enum) and c.adt == COMP for c in x.rest()):
+                # `Components` is AsRef<Path>: the path that is left to walk
+                buf = ""
+                for c in x.rest():
+                    t = text_of(c)
+                    if t is None:
+                        return None
+                    buf = pm.push(buf, t)
+                return str(buf)
+            return None
+
+        def static_ty(i):
+            if node is not None and node.get("args") and i < len(node["args"]) and "t" in node["args"][i]:
+                return self.lib.ty_str(self.lib.strip_refs(node["args"][i]["t"]))
+            return ""
+        ret_t = self.lib.ty_str(self.lib.strip_refs(node["t"])) if node is not None and "t" in node else ""
+        is_path_ty = lambda t: t in ("std::path::Path", "std::path::PathBuf")
+        r0 = rargs[0] if rargs else None
+        # Component values
+        if isinstance(a0, Enum) and a0.adt == COMP:
+            if fname in ("as_os_str", "as_ref") and len(args) == 1:
+                t = text_of(a0)
+                return t if t is not None else UNKNOWN
+            return NotImplemented
+        # comparisons where one side is statically a Path: component-wise
+        if fname in ("eq", "ne") and len(args) == 2 and isinstance(a0, str) and isinstance(args[1], str) and \
+                (is_path_ty(static_ty(0)) or is_path_ty(static_ty(1)) or isinstance(a0, PathV) or isinstance(args[1], PathV)) and \
+                not ("os_str::OsStr" in static_ty(0) and "os_str::OsStr" in static_ty(1)):
+            same = pm.components(a0) == pm.components(args[1])
+            return same if fname == "eq" else not same
+        # collecting components / names into a PathBuf
+        if fname in ("from_iter", "collect") and len(args) == 1 and ret_t == "std::path::PathBuf" and isinstance(a0, (list, Iter)):
+            buf = ""
+            for x in (a0.rest() if isinstance(a0, Iter) else a0):
+                t = text_of(x)
+                if t is None:
+                    return self.unknown("path built from a value that is not text")
+                buf = pm.push(buf, t)
+            return PathV(buf)
+        if path.startswith("pathdiff::") and fname == "diff_paths" and len(args) == 2 and isinstance(a0, str) and isinstance(args[1], str):
+            d = pm.diff_paths(a0, args[1])
+            return some(d) if d is not None else NONE
+        on_path = ("std::path::Path" in path or "std::path::PathBuf" in path or
+                   (isinstance(a0, PathV) and ("std::path::" in path or "::" not in path or path.startswith("core::convert::"))))
+        on_os = "ffi::os_str::" in path
+        if not (on_path or on_os):
+            return NotImplemented
+        if fname == "new" and not args:
+            return PathV("")
+        if not isinstance(a0, str):
+            return NotImplemented
+        if on_os:
+            # OsStr / OsString are text
+            if fname in ("new", "from", "to_os_string", "to_owned", "into_os_string", "as_os_str", "as_ref", "to_string_lossy", "into_string", "as_encoded_bytes", "into"):
+                return str(a0) if fname != "into_string" else ok(str(a0))
+            if fname == "to_str":
+                return some(str(a0))
+            if fname == "push" and isinstance(r0, Ref) and len(args) == 2 and text_of(args[1]) is not None:
+                r0.set(str(a0) + text_of(args[1]))
+                return UNIT
+            if fname in ("len",):
+                return len(a0.encode("utf-8"))
+            if fname == "is_empty":
+                return a0 == ""
+            if fname in ("eq", "ne") and len(args) == 2 and isinstance(args[1], str):
+                return (str(a0) == str(args[1])) if fname == "eq" else (str(a0) != str(args[1]))
+            return NotImplemented
+        # ---- Path / PathBuf ----
+        if fname in ("new", "from", "to_path_buf", "as_path", "as_ref", "to_owned", "into_boxed_path", "into", "clone", "borrow", "deref", "into_path_buf", "as_mut_os_string"):
+            return PathV(a0)
+        if fname in ("as_os_str", "into_os_string", "to_string_lossy", "display", "as_mut_os_str"):
+            return str(a0)
+        if fname == "to_str":
+            return some(str(a0))
+        if fname in ("components", "iter"):
+            cs = pm.components(a0)
+            return Iter([comp(c) for c in cs] if fname == "components" else [pm.comp_text(c) for c in cs])
+        if fname in ("has_root", "is_absolute"):
+            return pm.has_root(a0)
+        if fname == "is_relative":
+            return not pm.has_root(a0)
+        if fname == "parent":
+            p_ = pm.parent(a0)
+            return some(p_) if p_ is not None else NONE
+        if fname == "ancestors":
+            out, cur = [], PathV(a0)
+            while cur is not None:
+                out.append(cur)
+                cur = pm.parent(cur)
+            return Iter(out)
+        if fname in ("file_name", "file_stem", "extension"):
+            v = getattr(pm, fname)(a0)
+            return some(v) if v is not None else NONE
+        if len(args) == 2 and text_of(args[1]) is not None:
+            x = text_of(args[1])
+            if fname == "join":
+                return pm.push(a0, x)
+            if fname == "push" and isinstance(r0, Ref):
+                r0.set(pm.push(a0, x))
+                return UNIT
+            if fname == "with_file_name":
+                return pm.set_file_name(a0, x)
+            if fname == "set_file_name" and isinstance(r0, Ref):
+                r0.set(pm.set_file_name(a0, x))
+                return UNIT
+            if fname == "with_extension":
+                return pm.set_extension(a0, x)[0]
+            if fname == "set_extension" and isinstance(r0, Ref):
+                new, changed = pm.set_extension(a0, x)
+                r0.set(new)
+                return changed
+            if fname == "starts_with":
+                return pm.starts_with(a0, x)
+            if fname == "ends_with":
+                return pm.ends_with(a0, x)
+            if fname == "strip_prefix":
+                rest = pm.strip_prefix(a0, x)
+                return ok(rest) if rest is not None else err(Struct("#StripPrefixError", {}))
+            if fname in ("eq", "ne"):
+                same = pm.components(a0) == pm.components(x)
+                return same if fname == "eq" else not same
+        if fname == "pop" and isinstance(r0, Ref) and len(args) == 1:
+            new, popped = pm.pop(a0)
+            r0.set(new)
+            return popped
+        if fname == "extend" and isinstance(r0, Ref) and len(args) == 2 and isinstance(args[1], (list, Iter)):
+            buf = a0
+            for x in (args[1].rest() if isinstance(args[1], Iter) else args[1]):
+                t = text_of(x)
+                if t is None:
+                    return self.unknown("path extended with a value that is not text")
+                buf = pm.push(buf, t)
+            r0.set(PathV(buf))
+            return UNIT
+        if fname == "clear" and isinstance(r0, Ref):
+            r0.set(PathV(""))
+            return UNIT
+        if fname in ("exists", "is_file", "is_dir", "metadata", "canonicalize", "read_dir", "symlink_metadata", "read_link"):
+            return self.unknown("file-system access %s" % fname)
+        return NotImplemented
 
     # ---- strings, chars, maps, sets, ranges ---------------------------------------------------------
     def std_text_and_maps(self, path, fname, rargs, args, a0, node, depth):
@@ -1716,23 +1944,6 @@ class PEval:
                 inner_t = ret_t.split("<", 1)[1]
                 val = PySet(out) if any(t in inner_t.split("<")[0] for t in SET_TYPES) else out
                 return ok(val) if ret_t.startswith("core::result::Result<") else some(val)
-        # paths are modelled as plain text
-        if isinstance(a0, str) and ("std::path::" in path or "ffi::os_str" in path or "path::Path" in path):
-            if fname in ("new", "from", "to_path_buf", "to_string_lossy", "display", "as_os_str", "as_path", "into_os_string", "to_owned", "into_boxed_path", "as_ref"):
-                return a0
-            if fname == "to_str":
-                return some(a0)
-            if fname == "join" and len(args) == 2 and isinstance(args[1], str):
-                return args[1] if args[1].startswith("/") else (a0.rstrip("/") + "/" + args[1] if a0 else args[1])
-            if fname == "is_absolute":
-                return a0.startswith("/")
-            if fname == "file_name":
-                return some(a0.rstrip("/").rsplit("/", 1)[-1]) if a0.strip("/") else NONE
-            if fname == "extension":
-                base = a0.rsplit("/", 1)[-1]
-                return some(base.rsplit(".", 1)[1]) if "." in base.strip(".") else NONE
-            if fname == "parent":
-                return some(a0.rsplit("/", 1)[0]) if "/" in a0.rstrip("/") else (some("") if a0 else NONE)
         # collecting chars / strings into a String
         if fname == "collect" and ret_t == "alloc::string::String":
             seq = a0.rest() if isinstance(a0, Iter) else a0
